@@ -962,7 +962,10 @@ fn find_query_semantics() {
             Err(_) => { println!("WITNESS {{\"clause\":\"query\",\"query\":{:?},\"problem\":\"panic\"}}", q); return; }
             Ok(Err(e)) => { println!("WITNESS {{\"clause\":\"query\",\"query\":{:?},\"problem\":{:?}}}", q, e); return; }
             Ok(Ok(mut got)) => { let n = got.len(); got.sort(); got.dedup(); if got != want || n != got.len() {
-                let key = q.replace('"', "'");
+                // (K2 is identified by its call site: a RESOURCE constraint in a later position is a filter on Annotation::resources() and accepts
+                // annotations that RESOURCE as the first constraint does not return; the key names the constraint and the extra annotations)
+                let extras: Vec<&String> = got.iter().filter(|x| !want.contains(x)).collect();
+                let key = if constraints[j].starts_with("RESOURCE") && want.iter().all(|x| got.contains(x)) { format!("{} as a later constraint also accepts {:?}", constraints[j], extras).replace('"', "'") } else { q.replace('"', "'") };
                 if known.contains(&key) { println!("KNOWN {}", key); } else { println!("WITNESS {{\"clause\":\"conjunction = intersection, in either order\",\"query\":{:?},\"got\":\"{:?}\",\"want\":\"{:?}\"}}", q, got, want); return; }
             } }
         }
@@ -982,6 +985,32 @@ fn find_query_semantics() {
         for n in 1..=3usize {
             let q = format!("SELECT ANNOTATION ?a WHERE {}; LIMIT {};", c, n);
             if let Ok(got) = run(&q) { let want: Vec<String> = full.iter().take(n).cloned().collect(); if got != want { println!("WITNESS {{\"clause\":\"LIMIT = prefix of the unlimited results\",\"query\":{:?},\"got\":\"{:?}\",\"want\":\"{:?}\"}}", q, got, want); return; } }
+        }
+    }
+    // sub-queries behave as nested iteration over the outer results: for every outer constraint and every inner constraint, the rows are
+    // (outer item, inner item) for the inner items that hold for that outer item; an OPTIONAL sub-query that yields nothing for an outer item
+    // still returns that outer item (once, without the inner variable)
+    let rows = |q: &str| -> Result<Vec<Vec<String>>, String> {
+        let query: Query = q.try_into().map_err(|e: StamError| format!("parse: {}", e))?;
+        let iter = store.query(query).map_err(|e| format!("query: {}", e))?;
+        let mut out = vec![];
+        for results in iter { let mut row = vec![]; for r in results.iter() { if let QueryResultItem::Annotation(a) = r { row.push(a.id().unwrap_or("?").to_string()); } } out.push(row); }
+        Ok(out)
+    };
+    for outer in ["DATA \"d0\" \"k0\"", "DATASET \"d0\"", "RESOURCE \"r0\""] {
+        let outer_items = match run(&format!("SELECT ANNOTATION ?a WHERE {};", outer)) { Ok(v) => v, Err(_) => continue };
+        for (inner, optional) in [("DATA \"d0\" \"k0\" = \"no-such-value\"", true), ("DATA \"d0\" \"k0\" = \"no-such-value\"", false)] {
+            let q = format!("SELECT ANNOTATION ?a WHERE {}; {{ SELECT {}ANNOTATION ?b WHERE ANNOTATION ?a; {}; }}", outer, if optional { "OPTIONAL " } else { "" }, inner);
+            let want: Vec<Vec<String>> = if optional { outer_items.iter().map(|x| vec![x.clone()]).collect() } else { vec![] };
+            match std::panic::catch_unwind(std::panic::AssertUnwindSafe(|| rows(&q))) {
+                Err(_) => { println!("WITNESS {{\"clause\":\"query\",\"query\":{:?},\"problem\":\"panic\"}}", q); return; }
+                Ok(Err(_)) => {}
+                Ok(Ok(got)) => if got != want {
+                    // (K4 is identified by its call site: after an OPTIONAL sub-query came up empty the outer iteration is dropped)
+                    let key = if optional && !got.is_empty() && got.len() < want.len() && got[..] == want[..got.len()] { "an OPTIONAL sub-query without results ends the outer iteration".to_string() } else { q.replace('"', "'") };
+                    if known.contains(&key) { println!("KNOWN {}", key); } else { println!("WITNESS {{\"clause\":\"sub-queries are nested iteration; OPTIONAL keeps every outer row\",\"query\":{:?},\"got\":\"{:?}\",\"want\":\"{:?}\"}}", q, got, want); return; }
+                },
+            }
         }
     }
     println!("NO-WITNESS find_query_semantics");
@@ -1008,6 +1037,8 @@ fn find_data_search() {
     fn oracle(v: &DataValue, name: &str) -> bool {
         let int = |v: &DataValue| if let DataValue::Int(n) = v { Some(*n) } else { None };
         let flt = |v: &DataValue| if let DataValue::Float(n) = v { Some(*n) } else { None };
+        // the ordering operators are documented for any numeric value ("the datavalue must be numeric and greater than ..")
+        let num = |v: &DataValue| match v { DataValue::Int(n) => Some(*n as f64), DataValue::Float(n) => Some(*n), _ => None };
         let eq_str = |v: &DataValue, s: &str| match v {
             DataValue::String(x) => x == s,
             DataValue::Int(n) => s.parse::<isize>().map(|m| m == *n).unwrap_or(false),
@@ -1017,11 +1048,11 @@ fn find_data_search() {
         match name {
             "Any" => true, "Null" => matches!(v, DataValue::Null), "True" => matches!(v, DataValue::Bool(true)), "False" => matches!(v, DataValue::Bool(false)),
             "Equals 5" => eq_str(v, "5"), "Equals x" => eq_str(v, "x"), "Equals true" => eq_str(v, "true"), "Equals 5.0" => eq_str(v, "5.0"), "Equals on" => eq_str(v, "on"), "Equals YES" => eq_str(v, "YES"), "Equals off" => eq_str(v, "off"),
-            "EqualsInt 5" => int(v) == Some(5), "GreaterThan 0" => int(v).map(|n| n > 0).unwrap_or(false), "GreaterThanOrEqual 5" => int(v).map(|n| n >= 5).unwrap_or(false),
-            "LessThan 5" => int(v).map(|n| n < 5).unwrap_or(false), "LessThanOrEqual 0" => int(v).map(|n| n <= 0).unwrap_or(false),
-            "EqualsFloat 5.0" => flt(v) == Some(5.0), "GreaterThanFloat 0.4" => flt(v).map(|n| n > 0.4).unwrap_or(false), "LessThanFloat 5.0" => flt(v).map(|n| n < 5.0).unwrap_or(false),
+            "EqualsInt 5" => int(v) == Some(5), "GreaterThan 0" => num(v).map(|n| n > 0.0).unwrap_or(false), "GreaterThanOrEqual 5" => num(v).map(|n| n >= 5.0).unwrap_or(false),
+            "LessThan 5" => num(v).map(|n| n < 5.0).unwrap_or(false), "LessThanOrEqual 0" => num(v).map(|n| n <= 0.0).unwrap_or(false),
+            "EqualsFloat 5.0" => flt(v) == Some(5.0), "GreaterThanFloat 0.4" => num(v).map(|n| n > 0.4).unwrap_or(false), "LessThanFloat 5.0" => num(v).map(|n| n < 5.0).unwrap_or(false),
             "Not EqualsInt 5" => int(v) != Some(5),
-            "And GreaterThan -2, LessThan 5" => int(v).map(|n| n > -2 && n < 5).unwrap_or(false),
+            "And GreaterThan -2, LessThan 5" => num(v).map(|n| n > -2.0 && n < 5.0).unwrap_or(false),
             "Or EqualsInt 0, Equals x" => int(v) == Some(0) || eq_str(v, "x"),
             _ => unreachable!() }
     }
